@@ -48,7 +48,7 @@ ParamNames(kind, method) == {Params(kind, method)[i][1] : i \in 1..Len(Params(ki
 
 IsSpecialFloatString(v) == v.t = "str" /\ v.s \in {"NaN", "inf", "-inf"}
 \* TRUE / FALSE / "unspecified" : is the value inside the documented domain of the parameter?
-\* bands: the set of band names of the image ({} for a monoband image)
+\* bands: <<band names of the left image, band names of the right image>> ({} for a monoband image)
 Dom(kind, method, name, v, bands) ==
    CASE name = "window_size" ->
           IF v.t = "bool" THEN "unspecified"
@@ -62,8 +62,8 @@ Dom(kind, method, name, v, bands) ==
      [] name = "step" ->
           IF v.t = "bool" THEN "unspecified" ELSE IF v.t = "int" /\ v.n = 1 THEN "yes" ELSE "no"
      [] name = "band" ->
-          IF v.t = "null" THEN (IF bands = {} THEN "yes" ELSE "no")
-          ELSE IF v.t = "str" THEN (IF v.s \in bands THEN "yes" ELSE "no")
+          IF v.t = "null" THEN (IF bands[1] = {} /\ bands[2] = {} THEN "yes" ELSE "no")
+          ELSE IF v.t = "str" THEN (IF v.s \in bands[1] /\ v.s \in bands[2] THEN "yes" ELSE "no")
           ELSE "no"
      [] name \in {"cbca_intensity", "sigma_color", "sigma_space"} ->
           IF v.t = "int" THEN (IF v.n > 0 THEN "unspecified" ELSE "no")         \* integer literal for a float parameter
@@ -94,7 +94,7 @@ StepVerdict(kind, method, cfg, bands) ==
    IF method \notin Methods(kind) THEN "reject"
    ELSE LET ds == {Dom(kind, method, cfg[i][1], cfg[i][2], bands) : i \in 1..Len(cfg)}
             \* an omitted band on a multiband image is outside the domain as well
-            bandOmitted == kind = "matching_cost" /\ bands # {} /\ ~(\E i \in 1..Len(cfg) : cfg[i][1] = "band")
+            bandOmitted == kind = "matching_cost" /\ (bands[1] # {} \/ bands[2] # {}) /\ ~(\E i \in 1..Len(cfg) : cfg[i][1] = "band")
         IN IF "no" \in ds \/ bandOmitted THEN (IF "unspecified" \in ds THEN "unspecified" ELSE "reject")
            ELSE IF "unspecified" \in ds THEN "unspecified" ELSE "accept"
 \* expected value after checking: the special strings become floats (marked by the str value itself, compared by the harness)
